@@ -439,6 +439,9 @@ def run(ctx):
         except vlib.Broken as e:
             machinery(ctx, str(e))
 
+    if not ctx.violations:
+        # feed/feed.go carries the new-head and reorg notifications of this property (Feed.tla, G01)
+        ctx.include("G01", why="feed/feed.go: the one-slot lossy broadcast behind new-head / reorg notifications")
     ctx.assumptions += [
         "the source never returns to a block it abandoned (a reorg always produces new blocks), and an answer is computed "
         "at a version that was current at some moment between the request and its delivery",
